@@ -651,16 +651,16 @@ def writer_requirements(prog):
 ARMS = {
     "orthogonal": {"orthogonal": True, "shiftedmetric": True, 'curvature_type == "curl(b/B) with x-y derivatives"': False,
                    'curvature_type == "curl(b/B)"': True, "cap_Bp_ylow_xpoint": False, "hasattr": True, "yGroupIndex != 0": False,
-                   "Bp_dot_grady < 0": False, "psi_vals[0] > self.psi_vals[-1]": False},
+                   "Bp_dot_grady < 0": False, "self.psi_vals[0] > self.psi_vals[-1]": False},
     "non-orthogonal": {"orthogonal": False, "shiftedmetric": True, 'curvature_type == "curl(b/B) with x-y derivatives"': False,
                        'curvature_type == "curl(b/B)"': True, "cap_Bp_ylow_xpoint": False, "hasattr": True, "yGroupIndex != 0": False,
-                       "Bp_dot_grady < 0": False, "psi_vals[0] > self.psi_vals[-1]": False},
+                       "Bp_dot_grady < 0": False, "self.psi_vals[0] > self.psi_vals[-1]": False},
     "orthogonal/capBp": {"orthogonal": True, "shiftedmetric": True, 'curvature_type == "curl(b/B) with x-y derivatives"': False,
                          'curvature_type == "curl(b/B)"': True, "cap_Bp_ylow_xpoint": True, "hasattr": True, "yGroupIndex != 0": False,
-                         "Bp_dot_grady < 0": False, "psi_vals[0] > self.psi_vals[-1]": False},
+                         "Bp_dot_grady < 0": False, "self.psi_vals[0] > self.psi_vals[-1]": False},
     "orthogonal/xy-curvature": {"orthogonal": True, "shiftedmetric": True, 'curvature_type == "curl(b/B) with x-y derivatives"': True,
                                 "cap_Bp_ylow_xpoint": False, "hasattr": True, "yGroupIndex != 0": False,
-                                "Bp_dot_grady < 0": False, "psi_vals[0] > self.psi_vals[-1]": False},
+                                "Bp_dot_grady < 0": False, "self.psi_vals[0] > self.psi_vals[-1]": False},
 }
 
 _cache = {}
